@@ -165,7 +165,26 @@ func (ft *FuncTr) anchored(st *State, preCall *State, at *Term, in ssa.Instructi
 			if envL.pkg == nil {
 				envL.pkg = ft.w.pkgOfFunc(ft.fn)
 			}
-			lt, err := envL.trBool(lm.E)
+			lemE := lm.E
+			if len(a.Inst) > 0 {
+				q, ok := lemE.(*EQuant)
+				if !ok || !q.Forall || len(q.Vars) < len(a.Inst) {
+					return fmt.Errorf("apply %s (%s:%d): the lemma does not start with %d universally quantified variables", a.Lemma, a.C.File, a.C.Line, len(a.Inst))
+				}
+				// the instantiating expressions are evaluated in the function's scope at this point
+				envI := ft.newEnv(st)
+				envI.pos = in.Pos()
+				for k, ie := range a.Inst {
+					v := envI.tr(ie)
+					envL = envL.bind(q.Vars[k].Name, SV{T: envI.val(v), Ty: v.Ty})
+				}
+				if len(q.Vars) > len(a.Inst) {
+					lemE = &EQuant{Forall: true, Vars: q.Vars[len(a.Inst):], Triggers: q.Triggers, Body: q.Body}
+				} else {
+					lemE = q.Body
+				}
+			}
+			lt, err := envL.trBool(lemE)
 			if err != nil {
 				return fmt.Errorf("apply %s (%s:%d): %v", a.Lemma, a.C.File, a.C.Line, err)
 			}
@@ -175,6 +194,9 @@ func (ft *FuncTr) anchored(st *State, preCall *State, at *Term, in ssa.Instructi
 		}
 		env := ft.newEnv(st)
 		env.pos = in.Pos()
+		if !env.pos.IsValid() {
+			env.pos = ft.curPos // synthetic instruction (e.g. the len of a range loop): the last source position seen
+		}
 		env.pre = preCall
 		if l := ft.loopOf[in.Block()]; l != nil && l.head != nil {
 			env.headSt = l.head
@@ -369,7 +391,7 @@ func (ft *FuncTr) applyContract(st *State, at *Term, in ssa.Instruction, name st
 			return Val{}, unsupported("call of closure with unknown bindings")
 		}
 		for i, fv := range fn.FreeVars {
-			vars[fv.Name()] = bindSV(fnv.Binds[i], fv)
+			vars[fv.Name()] = ft.bindSVAt(st, fnv.Binds[i], fv)
 		}
 	}
 	pre := st.clone()
@@ -405,7 +427,9 @@ func (ft *FuncTr) applyContract(st *State, at *Term, in ssa.Instruction, name st
 		if !am.whole && len(am.locs) == 0 {
 			ft.h.noteFreshFrame(before, after, oldNext)
 		} else if !am.whole {
-			ft.h.noteFreshFrameCond(before, after, ft.h.nextID(ft.init), ft.locsFreshCond(am.locs))
+			if c := ft.locsEmptyCond(am.locs); c.S != "false" {
+				ft.h.noteFreshFrameCond(before, after, oldNext, c)
+			}
 		}
 	}
 	for _, n := range sortedKeys(ms.ghost) {
@@ -710,8 +734,13 @@ func (ft *FuncTr) makeClosure(st *State, at *Term, x *ssa.MakeClosure) error {
 	for _, b := range x.Bindings {
 		bv := ft.val(b)
 		if bv.Ref != nil && len(bv.Ref.path) == 0 {
-			// snapshotted cell: bind the current value
-			bv = Val{T: ft.localGet(st, bv.Ref.alloc), CellValue: true}
+			if ft.lateCell(bv.Ref.alloc) {
+				// read-only captured variable of a closure that is only called here: bound at call time
+				bv = Val{Ref: bv.Ref, CellValue: true}
+			} else {
+				// snapshotted cell: bind the current value
+				bv = Val{T: ft.localGet(st, bv.Ref.alloc), CellValue: true}
+			}
 		}
 		binds = append(binds, bv)
 	}
@@ -800,6 +829,14 @@ func (ft *FuncTr) makeClosure(st *State, at *Term, x *ssa.MakeClosure) error {
 		ft.assume(at, Forall(bs, body, []*Term{app}))
 	}
 	return nil
+}
+
+// bindSVAt: as bindSV; a late-bound captured variable denotes its value in state st
+func (ft *FuncTr) bindSVAt(st *State, b Val, fv *ssa.FreeVar) SV {
+	if b.Ref != nil && b.CellValue {
+		return SV{T: ft.localGet(st, b.Ref.alloc), Ty: fv.Type().(*types.Pointer).Elem()}
+	}
+	return bindSV(b, fv)
 }
 
 func bindSV(b Val, fv *ssa.FreeVar) SV {
